@@ -15,7 +15,8 @@ Four families of models (one model = one generated layout x one clock mode):
             layout: limits declared in the class of the base parameter / in a subclass / in a mixin, the ancestor with or
             without a hand-written check_<p> hook (accepting everything / refusing one value)
   control   1-3 HasOutputModule controllers on one HasControlledBy output (+ optionally one controller without output);
-            nodes with 2-3 such outputs, each with its own 1-2 controllers
+            nodes with 2-3 such outputs, each with its own 1-2 controllers; controllers whose set_control_active override
+            writes the output when switched off (re-entrant hand-over) and / or fails to switch off / on (toggled)
 
 Search: a state is the history (tuple of operations) that reaches it.  Each expansion builds a fresh node, replays the
 history and applies one more operation (live frappy objects do not deep-copy).  Level-synchronous BFS to a depth bound;
@@ -70,6 +71,12 @@ Oracle calibration (weaker reading taken wherever the statement leaves latitude)
     issued (undocumented use; the statement does not say what controlled_by should show then).
   * altering hardware: write methods answer with the value the device really took (rounded / clamped), as the documented
     contract of write_<param> asks; the struct / member agreement is then demanded on the altered values.
+  * control with failing hardware: the clauses of the statement (at most one controller marked; the output names exactly
+    the marked one) are demanded in every state, also after an operation that raised.  What controlled_by shows while NO
+    controller is marked is not said by the statement: 'self' is demanded (DESIGN reading) in histories without a
+    hardware fault only; once a set_control_active override has raised in the history, that clause is dropped (frappy
+    leaves the output naming the newcomer whose activation failed).  Violations introduced by an operation that raised
+    carry ':failed' in the signature.
   * hardware refusals: the generated driver refuses one marker value (member i == 13) with HardwareError and can be
     switched to fail reads (thorough tier): "every history of reads, writes and updates" includes failing ones.
 """
@@ -905,6 +912,27 @@ class _CtrlHW(_Ctrl):
         super().set_control_active(active)
 
 
+class _CtrlX(_Ctrl):
+    """controller whose set_control_active override (the documented hook of HasOutputModule) does more than switching a
+    flag: it can leave the output in a safe state when it is switched off (writes the output's target: re-entrant
+    self_controlled) and its hardware can fail to switch off / on (toggled by the history)"""
+    _hwactive = None
+    _safe = False
+    _fail = ''            # '' | 'off' | 'on': which switching direction fails at the moment
+    _fault_fired = False
+
+    def set_control_active(self, active):
+        if self._fail == ('on' if active else 'off'):
+            self._fault_fired = True
+            if active:
+                raise CommunicationFailedError('no reply from the controller')
+            raise HardwareError('controller can not be switched off')
+        self._hwactive = bool(active)
+        super().set_control_active(active)
+        if self._safe and not active and self.output_module:
+            self.output_module.write_target(0)
+
+
 class ControlModel(Model):
     """one node with one or more output modules; output number g has spec['groups'][g] controllers attached
     (old specs: 'k' = controllers of the only output)"""
@@ -925,6 +953,11 @@ class ControlModel(Model):
             for c in cs:
                 self.group_of[c] = g
         self.free = ['cfree'] if s['free'] else []
+        # set_control_active overrides: 'safe' = every controller writes the output when switched off; 'fault' = which
+        # switching direction(s) of which controllers can be made to fail by the history ('first' / 'all' controllers)
+        self.safe = bool(s.get('safe'))
+        self.fault = s.get('fault') or ''
+        self.faulty = [] if not self.fault else self.ctrls if s.get('fault_on') == 'all' else self.ctrls[:1]
         ops = self.ops
         # the target values play no role in the hand-over: one value keeps the state space small
         for c in self.ctrls + self.free:
@@ -937,6 +970,10 @@ class ControlModel(Model):
             ops.append(['d', 'w', out, 1])
             ops.append(['c', 'r', out])
             ops.append(['c', 'r', cs[0]])
+        for c in self.faulty:
+            for direction in ('off', 'on'):
+                if self.fault in (direction, 'both'):
+                    ops.append(['e', 'fail', c, direction])
 
     def cfg(self):
         s = self.spec
@@ -947,7 +984,8 @@ class ControlModel(Model):
         first = True
         for out, cs in self.groups:
             for c in cs:
-                cfg[c] = {'cls': _CtrlHW if (s['hwctrl'] and first) else _Ctrl, 'output_module': out}
+                cls = _CtrlX if (self.safe or self.fault) else _CtrlHW if (s['hwctrl'] and first) else _Ctrl
+                cfg[c] = {'cls': cls, 'output_module': out}
                 first = False
         for c in self.free:
             cfg[c] = {'cls': _Ctrl}
@@ -956,10 +994,21 @@ class ControlModel(Model):
                 cfg[out] = {'cls': _Out}
         return cfg
 
+    def init_world(self, world):
+        if self.safe:
+            for c in self.ctrls:
+                world.mods[c]._safe = True
+
+    def fault_fired(self, world):
+        return any(getattr(world.mods[c], '_fault_fired', False) for c in self.ctrls)
+
     def hidden(self, world):
-        return [getattr(world.mods[c], '_hwactive', None) for c in self.ctrls]
+        return [[getattr(world.mods[c], '_hwactive', None), getattr(world.mods[c], '_fail', '')] for c in self.ctrls] \
+            + [self.fault_fired(world)]
 
     def opclass(self, op):
+        if op[0] == 'e':
+            return 'hw-fault-toggle'
         if op[1] == 'u':
             return 'update-target-by-active-controller'
         if op[1] == 'r':
@@ -976,6 +1025,9 @@ class ControlModel(Model):
     def apply(self, world, op):
         who, what, target = op[0], op[1], op[2]
         mod = world.mods[target]
+        if who == 'e':
+            mod._fail = '' if mod._fail == op[3] else op[3]
+            return ['ok', None, None]
         if what == 'u':
             out = self.groups[self.group_of[target]][0]
             return world.driver(world.mods[out].update_target, target, float(op[3]))
@@ -1005,6 +1057,9 @@ class ControlModel(Model):
         post = world.cache()
         found = []
         opc = self.opclass(op) if op else 'start'
+        if res is not None and res[0] != 'ok':
+            opc += ':failed'      # the operation raised: its own history class (and signature)
+        faulted = self.fault_fired(world)
         # (1) an operation on one output or on one of its controllers leaves the control state of every other output alone
         if pre is not None and op and op[2] in self.group_of:
             g = self.group_of[op[2]]
@@ -1023,7 +1078,7 @@ class ControlModel(Model):
                 active, cbname = self.control_state(world, post, where, out, cs)
                 if len(active) > 1:
                     prev = [c for c in cs if pre and pre[f'{c}:control_active'][0] is True]
-                    what = 'previous-controller-left-on' if opc == 'takeover' and prev and prev[0] in active else 'two-active'
+                    what = 'previous-controller-left-on' if opc.startswith('takeover') and prev and prev[0] in active else 'two-active'
                     found.append((f'control:{where}:{what}:after-{opc}',
                                   f'{where}: controllers {active} of {out} are all marked control_active '
                                   f'(controlled_by = {cbname})'))
@@ -1033,12 +1088,12 @@ class ControlModel(Model):
                     found.append((f'control:{where}:output-names-{"self" if cbname == "self" else "another-module"}'
                                   f'-while-a-controller-is-active:after-{opc}',
                                   f'{where}: {active[0]} is marked control_active but {out}.controlled_by = {cbname}'))
-                elif not active and cbname != 'self':
+                elif not active and cbname != 'self' and not faulted:
                     found.append((f'control:{where}:output-names-inactive-controller:after-{opc}',
                                   f'{where}: no controller of {out} is marked control_active but {out}.controlled_by = {cbname}'))
                 if found:
                     return found
-        if op and opc == 'takeover' and res[0] == 'ok':
+        if op and opc == 'takeover' and res[0] == 'ok':   # (a failed take-over has opc 'takeover:failed')
             j = op[2]
             cs = self.groups[self.group_of[j]][1]
             active = [c for c in cs if post[f'{c}:control_active'][0] is True]
@@ -1055,12 +1110,25 @@ def control_specs(tier):
             ([1, 1], False, True, False), ([2, 1], False, False, True)]
     if tier == 'thorough':
         rows += [([2, 2], False, True, False), ([1, 1, 1], False, False, False), ([1, 2], True, True, True)]
+    rows = [r + ({},) for r in rows]
+    # controllers with set_control_active overrides: safe-state write of the output on switch-off, failing switch-off / -on
+    rows += [([2], False, True, False, {'safe': True}),
+             ([2], False, True, False, {'fault': 'off'}),
+             ([2], False, False, False, {'fault': 'on'}),
+             ([2], False, True, False, {'safe': True, 'fault': 'off'})]
+    if tier == 'thorough':
+        rows += [([3], False, True, False, {'safe': True}),
+                 ([3], False, True, False, {'fault': 'both'}),
+                 ([2], False, True, False, {'safe': True, 'fault': 'both', 'fault_on': 'all'}),
+                 ([2, 1], False, False, False, {'safe': True, 'fault': 'off'}),
+                 ([1, 1], False, True, False, {'safe': True, 'fault': 'both'})]
     res = []
-    for groups, free, of, hw in rows:
+    for groups, free, of, hw, extra in rows:
         for c in ('slow', 'fast'):
             spec = dict(family='control', free=free, out_first=of, hwctrl=hw, clock=c)
             # one output keeps the historical spec key, so that recorded replay files stay valid
             spec.update({'k': groups[0]} if len(groups) == 1 else {'groups': groups})
+            spec.update(extra)
             res.append(spec)
     return res
 
